@@ -180,7 +180,7 @@ def run(tier='quick'):
                   floor=1)
     old_position_removed(prog, cg, eff, chk, T7)
     T13 = chk.rule('T13', '1.x: every statement that selects the crates below a crate excludes the self-parent row '
-                          'that marks a root (children, lookup by parent and name)', floor=2)
+                          'that marks a root (children, lookup by parent and name)', floor=1)
     self_parent_excluded(prog, cg, eff, chk, T13)
     T18 = chk.rule('T18', '2.x table level: a playlist row is stored only at a position that exists - before the statement that '
                           'writes parentListId / nextListId, add() and update() look the parent up by id and the successor '
@@ -261,7 +261,7 @@ def subtree_removed(prog, cg, eff, chk, T10):
     for f in prog.functions.values():
         if f.body is None or f.is_pattern or not prog.in_repo(f.file):
             continue
-        for s_ in eff.sites(f):
+        for s_ in sites_mod.find_sites(f):      # the statement text is all that is looked at: no parse needed
             if 'recursive_triggers' in s_.text.lower():
                 recursive_on = True
     for gen, qn, closure in (('v1', V1 + 'engine_database_impl::remove_crate', ('cratehierarchy', 'listhierarchy')),
@@ -561,7 +561,7 @@ def whole_string_binds(prog, eff, chk, rid):
     for f in sorted(prog.functions.values(), key=lambda x: (x.file or '', x.line)):
         if f.body is None or f.is_pattern or not prog.in_repo(f.file):
             continue
-        for s_ in eff.sites(f):
+        for s_ in sites_mod.find_sites(f):      # only the bound expressions are looked at: no parse needed
             for b in s_.binds:
                 e = strip(b, explicit=True)
                 t = (e.get('dtype') or e.get('type') or '')
@@ -691,11 +691,12 @@ def self_parent_excluded(prog, cg, eff, chk, T13):
             txt = ' '.join(st.text().lower().split())
             if 'crateparentlist' not in txt:
                 continue
-            if not re.search(r'(\w+\s*\.\s*)?crateparentid\s*=\s*\?', txt):
+            if not re.search(r'(\w+\s*\.\s*)?crateparentid\s*(=|==|is)\s*\?', txt) and \
+                    not re.search(r'\?\s*(=|==|is)\s*(\w+\s*\.\s*)?crateparentid', txt):
                 continue
             n += 1
-            excl = re.search(r'(\w+\s*\.\s*)?crateoriginid\s*(<>|!=)\s*(\w+\s*\.\s*)?crateparentid', txt) or \
-                re.search(r'(\w+\s*\.\s*)?crateparentid\s*(<>|!=)\s*(\w+\s*\.\s*)?crateoriginid', txt)
+            excl = re.search(r'(\w+\s*\.\s*)?crateoriginid\s*(<>|!=|is\s+not)\s*(\w+\s*\.\s*)?crateparentid', txt) or \
+                re.search(r'(\w+\s*\.\s*)?crateparentid\s*(<>|!=|is\s+not)\s*(\w+\s*\.\s*)?crateoriginid', txt)
             inst = '%s: rows below a crate selected with the self-parent row excluded' % _short(f.qualname)
             if excl:
                 chk.ok(T13, inst, locstr(st_.node))
@@ -704,8 +705,10 @@ def self_parent_excluded(prog, cg, eff, chk, T13):
                               '%s: not so - the statement selects CrateParentList rows by crateParentId = ? without '
                               'crateOriginId <> crateParentId: for a root crate the row that marks it as a root '
                               'matches, so the crate is returned as a sub-crate of itself' % inst)
-    if n < 2:
-        chk.fail_broken('T13: fewer than two statements select CrateParentList rows by parent (anchors lost)')
+    if n < 1:
+        # children() and the lookup by parent and name each carry such a statement today; when one is written
+        # on top of the other a single statement remains, and the rule stays meaningful for it
+        chk.fail_broken('T13: no statement selects CrateParentList rows by parent (anchors lost)')
 
 
 def cycle_guard(prog, cg, eff, chk, T2, spec=None):
@@ -911,12 +914,36 @@ def _name_validation(prog, cg, eff, chk, T3):
             and len(f.params) == 1]
     sigs = []
     for f in vals:
+        # what the validator tests, whatever the spelling: the empty test as empty() / == "" / size() == 0 /
+        # length() == 0, a forbidden character as a character literal, a one-character string handed to a
+        # search (find(";")), or a named character constant
+        def _zero_cmp(x):
+            if x.get('kind') not in ('BinaryOperator', 'CXXOperatorCallExpr'):
+                return False
+            sub = list(walk(x))
+            return any(y.get('kind') == 'CXXMemberCallExpr' and strip(children(y)[0]).get('name') in ('size', 'length')
+                       for y in sub) and any(y.get('kind') == 'IntegerLiteral' and int(y.get('value') or 1) == 0 for y in sub)
         empty = any((x.get('kind') == 'CXXMemberCallExpr' and strip(children(x)[0]).get('name') == 'empty') or
-                    (x.get('kind') == 'StringLiteral' and program.literal_value(x) == '')
+                    (x.get('kind') == 'StringLiteral' and program.literal_value(x) == '') or _zero_cmp(x)
                     for x in walk(f.body))
-        chars = sorted({chr(int(x.get('value'))) for x in walk(f.body) if x.get('kind') == 'CharacterLiteral'})
-        sigs.append((f, (empty, tuple(chars))))
-    if len(sigs) >= 2:
+        chars = {chr(int(x.get('value'))) for x in walk(f.body) if x.get('kind') == 'CharacterLiteral'}
+        for x in walk(f.body):
+            if x.get('kind') == 'CXXMemberCallExpr' and (strip(children(x)[0]).get('name') or '').startswith('find'):
+                for a in children(x)[1:2]:
+                    v = program.literal_value(strip(a, explicit=True))
+                    if isinstance(v, str) and len(v) == 1:
+                        chars.add(v)
+            if x.get('kind') == 'DeclRefExpr' and (x.get('referencedDecl') or {}).get('kind') == 'VarDecl':
+                d = f.tu.ids.get((x.get('referencedDecl') or {}).get('id'))
+                if d is not None and 'char' in (d.get('type') or '') and '*' not in (d.get('type') or '') \
+                        and '[' not in (d.get('type') or ''):
+                    v = program.literal_value(d)
+                    if isinstance(v, int) and 0 < v < 256:
+                        chars.add(chr(v))
+        sigs.append((f, (empty, tuple(sorted(chars)))))
+    # one validator shared by every entry point is enough (the copies were factored into one): what remains
+    # necessary is that each validator there is rejects the empty name and ';', and that they agree
+    if len(sigs) >= 1:
         base = sigs[0][1]
         for f, sg in sigs:
             if not sg[0] and not sg[1]:
@@ -932,7 +959,7 @@ def _name_validation(prog, cg, eff, chk, T3):
                               '(empty: %s, characters: %s): the entry points do not reject the same names' % (
                                   _short(f.qualname), sg[0], list(sg[1]), base[0], list(base[1])))
     else:
-        chk.fail_broken('T3: fewer than two crate-name validators found')
+        chk.fail_broken('T3: no crate-name validator found')
 
 
 def _id_immutable(prog, cg, eff, chk, T4):
@@ -966,33 +993,67 @@ def _id_immutable(prog, cg, eff, chk, T4):
         chk.fail_broken('T4: positive control (DDL trigger assigning List.id) not matched: the matcher is blind')
 
 
+def chain_walkers(prog, cg, anchors):
+    """The functions that walk a successor chain loaded into a map: the listing operations named in `anchors`
+    themselves or whatever repository function they hand the map to (a file-local helper of any name, or
+    none when the walk is written in place) - recognised by what they do: a loop and a find() on a map."""
+    roots = [f for qn in anchors for f in prog.by_name(qn) if f.body is not None and not f.is_pattern]
+    if not roots:
+        raise AnalysisBroken('anchor functions %s not found' % (anchors,))
+    out = []
+    reach = cg.reachable(roots, stop=lambda x: not prog.in_repo(x.file))
+    for key in sorted(reach, key=str):
+        g = reach[key][0]
+        if g.body is None or g.is_pattern or not prog.in_repo(g.file):
+            continue
+        has_loop = any(x.get('kind') in ('DoStmt', 'WhileStmt', 'ForStmt') for x in walk(g.body))
+        has_find = False
+        for x in walk(g.body):
+            if x.get('kind') == 'CXXMemberCallExpr':
+                callee = strip(children(x)[0])
+                if callee.get('name') == 'find' and children(callee) and \
+                        'map' in (strip(children(callee)[0]).get('type') or ''):
+                    has_find = True
+        if has_loop and has_find:
+            out.append(g)
+    return out
+
+
 def _sentinels(prog, cg, eff, chk, T5):
     pl_none = _const(prog, 'PARENT_LIST_ID_NONE')
     nx_none = _const(prog, 'PLAYLIST_NO_NEXT_LIST_ID')
-    checks = [
-        (V2 + 'playlist_table::root_ids', r'parentlistid\s*=\s*(-?\d+)', pl_none, 'PARENT_LIST_ID_NONE'),
-        (V2 + 'playlist_table::find_root_id', r'parentlistid\s*=\s*(-?\d+)', pl_none, 'PARENT_LIST_ID_NONE'),
-    ]
-    for qn, rx, want, cname in checks:
-        for f in prog.by_name(qn):
-            for s in eff.sites(f):
-                m = re.search(rx, s.text.lower())
-                if m:
-                    inst = '%s compares with literal %s; %s == %s' % (_short(qn), m.group(1), cname, want)
-                    if int(m.group(1)) == want:
-                        chk.ok(T5, inst, locstr(s.node))
-                    else:
-                        chk.violation(T5, '%s|%s' % (_short(qn), cname), locstr(s.node), inst + ': they differ')
-    # sort_ids starts the chain walk at the no-next sentinel
-    for f in prog.functions.values():
-        if f.name == 'sort_ids' and f.body is not None:
-            refs = [(x.get('referencedDecl') or {}).get('name') for x in walk(f.body) if x.get('kind') == 'DeclRefExpr']
-            lits = [program.literal_value(x) for x in walk(f.body) if x.get('kind') == 'IntegerLiteral']
-            inst = 'sort_ids starts at the tail sentinel PLAYLIST_NO_NEXT_LIST_ID (%s)' % nx_none
-            if 'PLAYLIST_NO_NEXT_LIST_ID' in refs or nx_none in lits:
-                chk.ok(T5, inst, locstr(f.node))
-            else:
-                chk.violation(T5, 'sort_ids|tail sentinel', locstr(f.node), inst + ': not found in the function')
+    # the root readers compare parentListId with the value of the named sentinel - written into the SQL text
+    # or bound to the placeholder (the constant itself, a local alias of it, a literal)
+    for qn in (V2 + 'playlist_table::root_ids', V2 + 'playlist_table::find_root_id'):
+        for f, ip, ret in evaluate(prog, cg, eff, qn):
+            seen = set()
+            for rd in ip.reads:
+                if 'playlist' not in _tables_of(rd) or rd.loc in seen:
+                    continue
+                m = re.search(r'parentlistid\s*(?:=|==|is)\s*(-?\d+)', rd.stmt.text().lower())
+                got = int(m.group(1)) if m else None
+                if got is None:
+                    for c, v in (rd.where or {}).items():
+                        if c.lower() == 'parentlistid' and isinstance(vf._constval(v), int) and \
+                                not isinstance(vf._constval(v), bool):
+                            got = vf._constval(v)
+                if got is None:
+                    continue
+                seen.add(rd.loc)
+                inst = '%s compares with literal %s; %s == %s' % (_short(qn), got, 'PARENT_LIST_ID_NONE', pl_none)
+                if got == pl_none:
+                    chk.ok(T5, inst, rd.loc)
+                else:
+                    chk.violation(T5, '%s|%s' % (_short(qn), 'PARENT_LIST_ID_NONE'), rd.loc, inst + ': they differ')
+    # the walker of the sibling chain starts the chain walk at the no-next sentinel
+    for f in chain_walkers(prog, cg, (V2 + 'playlist_table::root_ids', V2 + 'playlist_table::child_ids')):
+        refs = [(x.get('referencedDecl') or {}).get('name') for x in walk(f.body) if x.get('kind') == 'DeclRefExpr']
+        lits = [program.literal_value(x) for x in walk(f.body) if x.get('kind') == 'IntegerLiteral']
+        inst = '%s starts at the tail sentinel PLAYLIST_NO_NEXT_LIST_ID (%s)' % (f.name, nx_none)
+        if 'PLAYLIST_NO_NEXT_LIST_ID' in refs or nx_none in lits:
+            chk.ok(T5, inst, locstr(f.node))
+        else:
+            chk.violation(T5, '%s|tail sentinel' % f.name, locstr(f.node), inst + ': not found in the function')
 
 
 def _input_dependent(conds):
@@ -1063,11 +1124,20 @@ def successor_is_sibling(prog, cg, eff, chk, rid):
                               'another sibling chain is accepted and the new crate vanishes from children()' % _short(qn))
 
 
-def _is_plain_comparison(c, want_parent):
-    """c is `parentListId(R) != P` (either operand order), possibly a disjunct of an || chain."""
-    if c[0] == 'op' and c[1] in ('||',):
-        return any(_is_plain_comparison(a, want_parent) for a in c[2])
-    if c[0] == 'op' and c[1] in ('!=', 'operator!='):
+def _is_plain_comparison(c, want_parent, neg=False):
+    """c is `parentListId(R) != P` (either operand order), possibly a disjunct of an || chain.  The test is
+    read with its polarity: `!(parentListId(R) == P)` (a named `is_sibling` flag that is negated, the else
+    branch of the equality, a conjunct under a negation - De Morgan) is the same condition."""
+    if c is None or not isinstance(c, tuple) or not c:
+        return False
+    if c[0] in ('call', 'callm') and c[3] is not None:
+        # a predicate helper of the repository: what its body computes
+        return _is_plain_comparison(c[3], want_parent, neg)
+    if c[0] == 'op' and c[1] in ('!', 'operator!') and len(c[2]) == 1:
+        return _is_plain_comparison(c[2][0], want_parent, not neg)
+    if c[0] == 'op' and c[1] == ('&&' if neg else '||'):
+        return any(_is_plain_comparison(a, want_parent, neg) for a in c[2])
+    if c[0] == 'op' and c[1] in (('==', 'operator==') if neg else ('!=', 'operator!=')):
         a, b = c[2][0], c[2][1]
         for x, y in ((a, b), (b, a)):
             lx = [l for l in vf.leaves(x) if l[0] == 'loc']
